@@ -3,14 +3,14 @@ import itertools, threading
 import core, gen, frames as F
 from props.base import PropBase
 
-KINDS = ["refuse", "close", "frames", "partial", "junk"]
+KINDS = ["refuse", "close", "frames", "partial", "junk", "long"]
 
 class C18(PropBase):
     id = "C18"
     lean_modules = ["SqModel.Props.C18"]
     extractors = ["tcp"]
-    rule = ("fault sequences over {refuse, accept+close, accept+frames+close, accept+partial line+reset, accept+junk bytes+close} "
-            "of length <= 2 (quick: 8 sequences, thorough: all 30 plus 40 of length 3), each followed by a healthy connection, "
+    rule = ("fault sequences over {refuse, accept+close, accept+frames+close, accept+partial line+reset, accept+junk bytes+close, accept+frames+6.5 s up+close} "
+            "of length <= 2 (quick: 10 sequences, thorough: all 42 plus 40 of length 3), each followed by a healthy connection, "
             "played by a scripted loopback peer against the real connect_and_read_tcp loop (real 5 s pauses, sequences run in "
             "parallel processes); a first connection teaches an aircraft before the faults. Observed: the reader reconnects after "
             "every fault (liveness), the pause after k refusals is about 5k s, the table after the healthy connection holds the "
@@ -35,6 +35,9 @@ class C18(PropBase):
                 a = base + 6 + j
                 data = (F.df11(5, a, 0) + "\n" + F.df11(5, base + 10 + j, 0)[:9]).encode()     # complete line + partial line, then RST
                 steps.append("data:%s:reset" % data.hex()); expect.add(a)
+            elif k == "long":      # a connection that stays up longer than the retry pause before the peer closes it
+                a = base + 11 + (j % 3)
+                steps.append("data:%s:eof:6500" % (F.df11(5, a, 0) + "\n").encode().hex()); expect.add(a)
             elif k == "junk":
                 steps.append("data:%s:eof" % (b"\x00\xff garbage \x80\n" + bytes(range(128, 200)) + b"\nGGGG").hex())
         healthy = base + 15
@@ -43,7 +46,7 @@ class C18(PropBase):
         return ";".join(steps), expect
 
     def explore(self, rep, run, rng, tier, driver_ok):
-        seqs = [("refuse",), ("close",), ("frames",), ("partial",), ("junk",), ("refuse", "partial"), ("partial", "refuse"), ("refuse", "refuse")]
+        seqs = [("refuse",), ("close",), ("frames",), ("partial",), ("junk",), ("long",), ("refuse", "partial"), ("partial", "refuse"), ("refuse", "refuse"), ("long", "partial")]
         if tier == "thorough":
             seqs = [()] + [(k,) for k in KINDS] + list(itertools.product(KINDS, repeat=2)) + rng.sample(list(itertools.product(KINDS, repeat=3)), 40)
         results = {}
